@@ -29,6 +29,7 @@ RULE = (
     "non-trivial = two records of one type reach the same scope, or a record is made outside / "
     "after completion, or a merge raises"
 )
+RULE += ' Round 16: the one-child programs also with the child scope left by an ordinary exception of its body (handled by the surrounding code).'
 RULE += ' Rounds 10-13: WIDE scopes (4-9 (12) children, one or two in tasks outliving their siblings); scope objects created in one order and entered in another; own trace id / logger on nested scopes; a merge callable switched between two view requests.'
 ASSUMPTIONS = [
     "M2 instances are falsy (__bool__ returns False): still folded like any other metric",
@@ -305,13 +306,17 @@ def _base_programs(tier: str):
                 ("s", "star", "return"),
                 ("a", "chain", "return"),
                 ("a", "star", "cancel"),
+                ("a", "star", "raise"),
+                ("s", "star", "raise"),
             ):
                 if root_kind == "s" and nchild == 2:
                     continue
                 if shape == "chain" and nchild != 2:
                     continue
-                if c0_end == "cancel" and nchild != 1:
+                if c0_end in ("cancel", "raise") and nchild != 1:
                     continue
+                if tier == "quick" and c0_end == "raise" and root_kind == "s":
+                    continue  # (thorough only)
                 if tier == "quick" and nchild == 2 and shape != "chain" and not (
                     root_kind == "a" and c0_end == "return" and placement == ("create", "create")
                 ):
@@ -338,7 +343,7 @@ def _base_programs(tier: str):
                                 or not (shape == "chain" or placement == ("create", "create"))
                             ):
                                 continue  # thorough: three records over two children only in the quick tier's shapes
-                            if c0_end == "cancel" and not any(p in ("c0-late", "root-post") for p in pos):
+                            if c0_end in ("cancel", "raise") and not any(p in ("c0-late", "root-post") for p in pos):
                                 continue
                             yield {
                                 "root": root_kind,
@@ -351,6 +356,10 @@ def _base_programs(tier: str):
 
 def explore_config(tier: str, program) -> dict:
     return {"cap": 200000}
+
+
+class _BodyFailed(Exception):
+    pass
 
 
 def execute(program, ch: Chooser) -> Result:  # noqa: C901, PLR0915
@@ -458,12 +467,17 @@ def execute(program, ch: Chooser) -> Result:  # noqa: C901, PLR0915
                         # the scope is left by a cancellation which the surrounding code handles
                         asyncio.current_task().cancel()
                         await asyncio.sleep(0)
+                    if c == 0 and program.get("c0_end") == "raise":
+                        # ... or by an ordinary exception of its body which the surrounding code handles
+                        raise _BodyFailed(name)
                 finally:
                     stacks[me].pop()
         except asyncio.CancelledError:
             if not (c == 0 and program.get("c0_end") == "cancel"):
                 raise
             asyncio.current_task().uncancel()
+        except _BodyFailed:
+            pass
         await run_records(f"{name}-late")
 
     async def root() -> None:
